@@ -121,8 +121,12 @@ type Eng struct {
 	namePrefix  string
 
 	modCache map[*ssa.Function]map[string]bool
+	modGeneral map[*ssa.Function]map[string]bool
+	curGen map[string]bool
+	freshScope map[*ssa.BasicBlock]bool
 	storeDefs map[string]storeDef // heap version name -> (previous version, index, value)
 	allocRefs map[string]bool
+	published map[string]bool // allocation refs that were stored into the heap (may be visible to other goroutines)
 	wantModels bool
 	mathTerms [][3]string
 	valueFieldTypes map[string]bool
@@ -138,7 +142,7 @@ func NewEng(ld *Loaded, spec *SpecFile) *Eng {
 	e := &Eng{ld: ld, spec: spec, sc: NewScript(),
 		regionSort: map[string]string{}, subIdx: map[string]int{}, typeIDs: map[string]int{},
 		strLits: map[string]string{}, oblNames: map[string]int{}, notes: map[string]bool{},
-		maxInline: 4, modCache: map[*ssa.Function]map[string]bool{}, storeDefs: map[string]storeDef{}, allocRefs: map[string]bool{}, regionElemType: map[string]types.Type{}, regionKeySort: map[string]string{}}
+		maxInline: 4, modCache: map[*ssa.Function]map[string]bool{}, storeDefs: map[string]storeDef{}, allocRefs: map[string]bool{}, published: map[string]bool{}, regionElemType: map[string]types.Type{}, regionKeySort: map[string]string{}}
 	e.sc.prelude.WriteString(slicePrelude)
 	if spec != nil {
 		e.declDatatypes()
@@ -609,6 +613,7 @@ func (e *Eng) alloc(st *State, why string) string {
 	fr := e.get(st, frRegion, "Int")
 	ref := e.sc.define("ref", "Int", fr, "alloc "+why)
 	e.allocRefs[ref] = true
+	e.sc.assume(sx(">", ref, "0"), "allocated references are non-nil")
 	e.set(st, frRegion, "Int", sx("+", fr, "1"), "frontier")
 	return ref
 }
@@ -743,6 +748,7 @@ type Frame struct {
 	entryGuard string
 	nonnil map[string][]*ssa.BasicBlock
 	inheritedNonNil map[string]bool
+	autoBounds map[*ssa.BasicBlock]func(*State, map[*ssa.Phi]*Val, *ssa.BasicBlock, string)
 }
 
 func sortBlocksRPO(fn *ssa.Function) ([]*ssa.BasicBlock, map[[2]int]bool) {
@@ -963,4 +969,22 @@ func (e *Eng) usedAsValueField(t types.Type) bool {
 		}
 	}
 	return e.valueFieldTypes[types.TypeString(types.Unalias(t), nil)]
+}
+
+// havocRegFresh: the region may only have been written inside objects allocated at or after
+// frontier frBefore; every older location keeps its value.
+func (e *Eng) havocRegFresh(st *State, name, frBefore string) {
+	sortName, ok := e.regionSort[name]
+	if !ok {
+		e.errf("havoc of unregistered region %s", name)
+		return
+	}
+	if !(strings.HasPrefix(name, "F.") || strings.HasPrefix(name, "C.") || strings.HasPrefix(name, "E.") || strings.HasPrefix(name, "MH.") || strings.HasPrefix(name, "MV.") || strings.HasPrefix(name, "ML.") || name == "BL" || name == chanClosedRegion) {
+		e.havocReg(st, name)
+		return
+	}
+	before := e.get(st, name, sortName)
+	e.havocReg(st, name)
+	now := st.reg[name]
+	e.sc.assume(fmt.Sprintf("(forall ((p Int)) (! (=> (< p %s) (= (select %s p) (select %s p))) :pattern ((select %s p))))", frBefore, now, before, now), "frame: only freshly allocated objects were written in "+name)
 }
